@@ -218,6 +218,12 @@ pub fn run(args: &Args, report: &mut Report) {
         } else {
             layouts_for(&mut crng, nconf, true)
         };
+        // a replication change to Limited(k): add a layout in which replicas of the narrowed block
+        // share a host and are fed by several remote hosts
+        let mut layouts = layouts;
+        if g.program.stmts.iter().any(|s| matches!(s, Stmt::Op { op: UOp::Replicate(Rep::Limited(_)), .. })) {
+            layouts.push(crng.pick(&[Layout::Remote(vec![2, 1, 1]), Layout::Remote(vec![2, 2, 2, 2]), Layout::Remote(vec![3, 1, 2])]).clone());
+        }
         let phash = hash_str(&format!("{:?}", g.program.stmts)) ^ hash_str(&format!("{:?}", g.program.inputs.iter().map(|i| i.len()).collect::<Vec<_>>()));
         for (ci, layout) in layouts.iter().enumerate() {
             let mut batch = if ci == 0 { g.program.batch } else { random_batch(&mut crng) };
